@@ -333,14 +333,14 @@ void make_items(const Options& o, std::vector<Item>& items)
                     }
                 if (!has_add) return;
                 if (!thorough && !has_destroy && re != RE_NONE) return;
-                add(false, cb, re, {roles[idx[0]], roles[idx[1]]}, 2, 3);
+                add(false, cb, re, {roles[idx[0]], roles[idx[1]]}, 3, 4);
             });
         }
     // three threads: adder, destroyer, and a third role
     for (int re : {RE_NONE, RE_SIZE, RE_DESTROY})
         for (size_t r = 0; r < roles.size(); r++) {
             if (!thorough && (r == 10 || r == 7 || r == 2)) continue;
-            add(false, CB_COUNT, re, {{ADD_EXT, DROP}, {DESTROY0}, roles[r]}, 2, 2);
+            add(false, CB_COUNT, re, {{ADD_EXT, DROP}, {DESTROY0}, roles[r]}, 3, 3);
             if (thorough) add(false, CB_REENTER, re, {{ADD, ADD}, {DESTROY0, DESTROY0}, roles[r]}, 2, 2);
         }
 }
